@@ -6,11 +6,13 @@ Model of policy-mode strategy-based throttling.  Core Lean only.
   services/remedies/strategy_based_throttling_plugin.go ↦ `resolve`, `pluginStep`
 
 Time is `Nat` nanoseconds since the Unix epoch (`epochTime = time.Unix(0,0)` ↦ 0).  The Go code mirrored
-here (same comparison operators, on purpose):
+here (same comparison operators; this is the code AFTER the repairs fix F09a [`!Before` instead of the strict
+`After`] and fix F09c [the stored window end is dropped when the window size changes]):
 
+    if state.windowData.WindowSize != windowData.WindowSize { state.windowEndTime = epochTime }   -- F09c
     state.windowData = windowData
     ensureWindowIsUpdated():  start := (now / W) * W ; end := start + W
-                              if now.After(state.windowEndTime) {            -- STRICT
+                              if !now.Before(state.windowEndTime) {          -- F09a: not strict
                                  if SpilloverEnabled && windowEndTime != epoch {
                                     if now.Day() == RenewOnDay { spill = 0 } else { spill += allowed - counter } }
                                  counter = 0 ; windowEndTime = end }
@@ -85,7 +87,7 @@ def initKey : KeyState := ⟨0, 0, 0, zeroWD⟩
 def ensure (now : Nat) (s : KeyState) : KeyState :=
   let wd := s.wd
   let endT := (now / wd.W) * wd.W + wd.W
-  if now > s.windowEnd then
+  if s.windowEnd ≤ now then
     let spill :=
       if wd.spillOn && s.windowEnd != 0 then
         (if dayOfMonth now == wd.renewDay then 0 else s.spill + wd.allowed - s.counter)
@@ -93,9 +95,14 @@ def ensure (now : Nat) (s : KeyState) : KeyState :=
     { s with counter := 0, spill := spill, windowEnd := endT }
   else s
 
+/-- First statement of `TryToIncrement`: a changed window size forgets the stored window end, then the new
+    window data is stored. -/
+def adjust (wd : WindowData) (s : KeyState) : KeyState :=
+  if s.wd.W != wd.W then { s with windowEnd := 0, wd := wd } else { s with wd := wd }
+
 /-- `singleRateLimitState.TryToIncrement`; `true` = Proceed. -/
 def tryInc (cap : CapFn) (now : Nat) (wd : WindowData) (s : KeyState) : KeyState × Bool :=
-  let s1 := ensure now { s with wd := wd }
+  let s1 := ensure now (adjust wd s)
   if cap (wd.allowed + s1.spill) wd.ratio ≤ (s1.counter : Int) then (s1, false)
   else ({ s1 with counter := s1.counter + 1 }, true)
 
@@ -239,7 +246,7 @@ def pluginStep (cap : CapFn) (st : State Key) (r : Remedy) (hs : List (String ×
   | .limited key wd =>
     if wd.W == 0 then
       -- the key's state is created and `windowData` stored, then `elapsed / 0` panics
-      (set key { (find key st).getD initKey with wd := wd } st, .panic)
+      (set key (adjust wd ((find key st).getD initKey)) st, .panic)
     else
       let (st', e) := stepL cap st ⟨key, t, wd⟩
       (st', if e.pass then .noop else .early (effStatus r))
